@@ -28,6 +28,9 @@ def build_die(d: dict, entry: str = "tree"):
         src = f"{gd.yaml_num(d['W'])}x{gd.yaml_num(d['H'])}"
     elif entry == "text":
         src = gd.die_text(d)
+    elif entry == "handle":
+        import io
+        src = io.StringIO(gd.die_text(d))
     elif entry == "file":
         scratch = os.environ.get("FV_SCRATCH", "/tmp")
         _tmp_counter[0] += 1
